@@ -48,6 +48,10 @@ type Thread struct {
 	def  bool
 	Tag  string // last point label (for traces)
 	done bool
+	// daemon: started by a `go` statement of the program under test (not by the harness). The
+	// execution ends when every harness thread is done and no daemon can make a step; a daemon
+	// blocked forever (a worker loop) is not a deadlock.
+	daemon bool
 }
 
 // Rec is one recorded decision (only decisions with more than one alternative are recorded).
@@ -137,11 +141,28 @@ func Run(prefix []int, maxSteps int, onPoint func(*Thread), fns ...func()) *Exec
 	if !x.Deadlock && !x.Horizon && x.Diverged == "" {
 		x.join.Wait()
 		for i := 0; i < x.n; i++ {
-			x.threads[i].g.close()
+			if x.threads[i].done {
+				x.threads[i].g.close()
+			}
 		}
 		x.mainG.close()
 	}
 	return x
+}
+
+// Spawn starts fn as a new controlled thread of the running execution (what a rewritten `go`
+// statement calls). The new thread is enabled at once; the spawning thread keeps running.
+//
+//go:norace
+func (t *Thread) Spawn(fn func()) {
+	x := t.x
+	if x.n >= MaxThreads {
+		panic("verif/sched: more than MaxThreads goroutines in one controlled execution")
+	}
+	nt := &Thread{ID: x.n, x: x, g: newGate(), kind: KStart, Tag: "start", daemon: true}
+	x.threads[x.n] = nt
+	x.n++
+	go nt.body(fn)
 }
 
 //go:norace
@@ -159,7 +180,9 @@ func (t *Thread) body(fn func()) {
 			}
 		}
 		t.done = true
-		t.x.join.Done()
+		if !t.daemon {
+			t.x.join.Done()
+		}
 		t.x.schedule(t)
 	}()
 	fn()
@@ -256,7 +279,7 @@ func (x *Exec) schedule(t *Thread) {
 	unfinished := 0
 	for i := 0; i < x.n; i++ {
 		o := x.threads[i]
-		if !o.done {
+		if !o.done && !o.daemon {
 			unfinished++
 		}
 		if o == t {
